@@ -84,11 +84,15 @@ struct CxPool {
 };
 #define POOL_HDR  ALIGN(sizeof(struct CxPoolSeg))
 
+/* larger requests are refused, so that aligning and doubling cannot overflow */
+#define POOL_MAX_SIZE  (SIZE_MAX / 4)
+
 static struct CxPoolSeg *new_seg(struct CxPool *pool, size_t nsize)
 {
 	struct CxPoolSeg *seg;
 	unsigned char *ptr;
-	size_t alloc = POOL_HDR + nsize;
+	/* aligning seg_start can consume up to align-1 bytes */
+	size_t alloc = POOL_HDR + pool->align + nsize;
 
 	seg = cx_alloc(pool->parent, alloc);
 	if (seg == NULL)
@@ -108,8 +112,10 @@ static void *pool_alloc(void *ctx, size_t size)
 	struct CxPool *pool = ctx;
 	struct CxPoolSeg *seg = pool->last;
 	void *ptr;
-	unsigned nsize;
+	size_t nsize;
 
+	if (size > POOL_MAX_SIZE)
+		return NULL;
 	size = CUSTOM_ALIGN(size, pool->align);
 	if (seg && seg->seg_pos + size <= seg->seg_end) {
 		ptr = seg->seg_pos;
@@ -118,6 +124,8 @@ static void *pool_alloc(void *ctx, size_t size)
 		return ptr;
 	} else {
 		nsize = seg ? (2 * (seg->seg_end - seg->seg_start)) : 512;
+		if (nsize < 512)
+			nsize = 512;
 		while (nsize < size)
 			nsize *= 2;
 		seg = new_seg(pool, nsize);
@@ -164,6 +172,8 @@ static void *pool_realloc(void *ctx, void *ptr, size_t len)
 	unsigned char *p = ptr;
 	size_t olen;
 
+	if (len > POOL_MAX_SIZE)
+		return NULL;
 	if (pool->last_ptr != ptr) {
 		olen = pool_guess_old_len(pool, ptr);
 		p = pool_alloc(ctx, len);
@@ -239,9 +249,12 @@ CxMem *cx_new_pool_from_area(CxMem *parent, void *buf, size_t size, bool allow_f
 	head->allow_free_first = allow_free;
 	head->align = align;
 
-	head->first_seg.seg_start = (void *)CUSTOM_ALIGN(head + 1, align);
-	head->first_seg.seg_pos = head->first_seg.seg_start;
 	head->first_seg.seg_end = (unsigned char *)head + size;
+	head->first_seg.seg_start = (void *)CUSTOM_ALIGN(head + 1, align);
+	/* area too small for aligned start: first segment is empty */
+	if (head->first_seg.seg_start > head->first_seg.seg_end)
+		head->first_seg.seg_start = head->first_seg.seg_end;
+	head->first_seg.seg_pos = head->first_seg.seg_start;
 
 	return &head->this;
 }
